@@ -363,6 +363,8 @@ def charset_strips(ctx, modules):
     out = []
     for mname in modules:
         for fi in ctx.P.funcs_in_module(mname):
+            if ctx.absorbed(fi):
+                continue
             for c in walk_local(fi.node):
                 if isinstance(c, ast.Call) and isinstance(c.func, ast.Attribute) and c.func.attr in ("lstrip", "rstrip", "strip") and c.args:
                     v = ctx.P.try_fold(fi.module, c.args[0])
